@@ -63,6 +63,8 @@ theorem run_nil (P : Prims) (env : Env) (ent : Entropy) : run P [] env ent = .st
 @[flowval] theorem placeOfName_rounds : placeOfName "rounds" = .var "rounds" := by decide
 @[flowval] theorem placeOfName_scheme_Rounds : placeOfName "scheme.Rounds" = .field "scheme" "Rounds" := by decide
 @[flowval] theorem placeOfName_scheme_Version : placeOfName "scheme.Version" = .field "scheme" "Version" := by decide
+@[flowval] theorem placeOfName_scheme_HashPrefix : placeOfName "scheme.HashPrefix" = .field "scheme" "HashPrefix" := by decide
+@[flowval] theorem placeOfName_scheme_Separator : placeOfName "scheme.Separator" = .field "scheme" "Separator" := by decide
 @[flowval] theorem placeOfName_scheme_Sum : placeOfName "scheme.Sum" = .field "scheme" "Sum" := by decide
 
 /-! ## Stored field values -/
@@ -86,7 +88,7 @@ theorem writeBuf_zeros_of_le (n : Nat) (out : Bytes) (h : out.length ≤ n) :
 
 attribute [flowval] step eval evalSpine call litType zeroOfVar constOf asUnmarshal asEncode Step.of Step.ofOption
   env0 Eval.ofOption readPlace writePlace binop unop valEq Val.isNil Option.elim Except.map
-  assignAll components encoderOf placeOfExpr callOf keyArgs keyResult sumLength kvList mkStruct
+  assignAll components encoderOf placeOfExpr callOf keyArgs keyResult sumLength kvList mkStruct writeFields
   optStr optNat optBool litField checkEnv paramsEnv paramsResults paramsPrims newHashEnv
 
 /-- Finish the statement being executed, then execute statements while the head statement
